@@ -155,15 +155,21 @@ def api_calls():
         bath = oqupy.Bath(a["coupling"], corr())
         s = oqupy.System(a["h"], gammas=[0.1], lindblad_operators=[a["lop"]])
         p = oqupy.TempoParameters(dt=0.1, epsrel=1e-7, dkmax=2)
-        return np.array(oqupy.Tempo(s, bath, p, a["rho"], 0.0).compute(0.21, progress_type="silent").states)
+        dyn = oqupy.Tempo(s, bath, p, a["rho"], 0.0).compute(0.21, progress_type="silent")
+        a["_live"] = lambda: np.array(dyn.states)
+        return a["_live"]()
     calls["Tempo"] = ({"h": h, "lop": lop, "coupling": cop, "rho": RHO}, tempo)
 
     def dynamics(a):
         c = oqupy.Control(2)
         c.add_single(1, a["ctl"])
         s = oqupy.System(a["h"])
-        return np.array(oqupy.compute_dynamics(s, initial_state=a["rho"], process_tensor=identity_pt(3), control=c,
-                                               progress_type="silent").states)
+        dyn = oqupy.compute_dynamics(s, initial_state=a["rho"], process_tensor=identity_pt(3), control=c,
+                                     progress_type="silent")
+        # ... and without a process tensor (the state at t=0 is recorded before anything acts on it)
+        dyn2 = oqupy.compute_dynamics(s, initial_state=a["rho"], dt=0.1, num_steps=2, progress_type="silent")
+        a["_live"] = lambda: np.concatenate([np.array(dyn.states), np.array(dyn2.states)])
+        return a["_live"]()
     calls["compute_dynamics"] = ({"h": h, "rho": RHO, "ctl": ctl}, dynamics)
 
     def correlations(a):
@@ -177,7 +183,8 @@ def api_calls():
         psys = oqupy.ParameterizedSystem(lambda x, y: x * SX + y * SZ)
         r = oqupy.state_gradient(system=psys, initial_state=a["rho"], target_derivative=a["target"],
                                  process_tensors=[identity_pt(2)], parameters=a["pars"], progress_type="silent")
-        return np.array(r["gradient"])
+        a["_live"] = lambda: np.concatenate([np.array(r["gradient"]).reshape(-1), np.array(r["dynamics"].states).reshape(-1)])
+        return a["_live"]()
     calls["state_gradient"] = ({"rho": RHO, "target": np.array([[0.2, 0.1j], [-0.1j, 0.8]]),
                                 "pars": np.array([[0.3, 0.1], [0.2, 0.4], [0.5, 0.0], [0.1, 0.3]])}, gradient)
 
@@ -189,7 +196,9 @@ def api_calls():
         mps = oqupy.AugmentedMPS([a["rho"], a["rho2"]])
         t = oqupy.PtTebd(mps, chain, [None, None], oqupy.PtTebdParameters(dt=0.1, order=2, epsrel=1e-10),
                          dynamics_sites=[(0, 1)])
-        return np.array(t.compute(2, progress_type="silent")["dynamics"][(0, 1)].states)
+        res = t.compute(2, progress_type="silent")
+        a["_live"] = lambda: np.array(res["dynamics"][(0, 1)].states)
+        return a["_live"]()
     calls["PtTebd"] = ({"h": h, "nl": SZ.copy(), "nr": SX.copy(), "lop": lop, "rho": RHO, "rho2": RHO.T.copy()}, tebd)
 
     def mftempo(a):
@@ -198,7 +207,8 @@ def api_calls():
         bath = oqupy.Bath(a["coupling"], corr())
         p = oqupy.TempoParameters(dt=0.1, epsrel=1e-7, dkmax=2)
         d = oqupy.MeanFieldTempo(mfs, [bath], p, [a["rho"]], 0.2, 0.0).compute(0.21, progress_type="silent")
-        return np.concatenate([np.array(d.system_dynamics[0].states).reshape(-1), np.array(d.fields)])
+        a["_live"] = lambda: np.concatenate([np.array(d.system_dynamics[0].states).reshape(-1), np.array(d.fields)])
+        return a["_live"]()
     calls["MeanFieldTempo"] = ({"h": h, "coupling": cop, "rho": RHO}, mftempo)
 
     def pt_set(a):
@@ -207,8 +217,11 @@ def api_calls():
         p.set_mpo_tensor(0, a["t0"])
         p.set_mpo_tensor(1, a["t0"])
         p.compute_caps()
-        return np.array(oqupy.compute_dynamics(oqupy.System(h), initial_state=a["rho"], process_tensor=p,
-                                               progress_type="silent").states)
+        dyn = oqupy.compute_dynamics(oqupy.System(h), initial_state=a["rho"], process_tensor=p, progress_type="silent")
+        # the process tensor keeps what it was given: read back after the caller's array has been overwritten
+        a["_live"] = lambda: np.concatenate([np.array(dyn.states).reshape(-1), np.array(p.get_mpo_tensor(0)).reshape(-1)])
+        return a["_live"]()
+
     def bathdyn(a):
         from oqupy import bath_dynamics
         bath = oqupy.Bath(0.5 * SZ, corr())
@@ -254,6 +267,15 @@ def layout_job(job):
             # bytes, not values: a caller's NaN entries must stay NaN
             if v.tobytes() != pristine[k].tobytes() or (v.flags.writeable, v.strides) != flags[k]:
                 out.append({"what": "argument-mutated", "argument": k})
+        # results handed back to the caller do not share memory with the caller's arrays: overwrite them, read again
+        live = given_all.get("_live")
+        if live is not None and not out:
+            for k, v in given.items():
+                if v.flags.writeable:
+                    v[...] = 7.25
+            again = live()
+            if again.shape != res.shape or not np.array_equal(again, res, equal_nan=True):
+                out.append({"what": "result-aliases-caller-array"})
     except Exception as ex:  # pylint: disable=broad-except
         import traceback
         out.append({"what": "harness", "detail": traceback.format_exc()[-500:]})
@@ -379,6 +401,63 @@ def reuse_job(case):
     return out
 
 
+def near_job(kind):
+    """Results depend on the values of the inputs, however close they are to inputs used before: after a
+    computation with value v, the computation with v + delta (delta tiny, fresh objects) must respond linearly,
+    (f(v + delta) - f(v)) = (delta / Delta) (f(v + Delta) - f(v)) for a larger Delta - a memo or an equality test
+    with a tolerance that conflates v + delta with v returns f(v) again."""
+    import oqupy
+    sy = np.array([[0, -1j], [1j, 0]])
+    lop = np.array([[0, 1], [0, 0]], dtype=complex)
+    sd_w = None
+
+    def f(x):
+        h = 0.4 * SX + 0.3 * SZ + 0.2 * sy
+        gam, cpl, alpha, rho = 0.1, 0.5 * SZ + 0.2 * SX, 0.05, RHO.copy()
+        if kind == "hamiltonian":
+            h = h + x * SX
+        elif kind == "rate":
+            gam = gam + x
+        elif kind == "lindblad-operator":
+            pass
+        elif kind == "coupling":
+            cpl = cpl + x * SZ
+        elif kind == "alpha":
+            alpha = alpha + x
+        elif kind == "initial-state":
+            rho = rho + x * SZ
+        lo = lop + (x * SZ if kind == "lindblad-operator" else 0)
+        system = oqupy.System(h, gammas=[gam], lindblad_operators=[lo])
+        corr = oqupy.PowerLawSD(alpha=alpha, zeta=1.0, cutoff=2.0, cutoff_type="exponential", temperature=0.5)
+        bath = oqupy.Bath(cpl, corr)
+        params = oqupy.TempoParameters(dt=0.1, epsrel=1e-13, dkmax=3)
+        a = oqupy.Tempo(system, bath, params, rho, 0.0).compute(0.31, progress_type="silent")
+        b = oqupy.compute_dynamics(system, initial_state=rho, dt=0.1, num_steps=3, progress_type="silent")
+        return np.concatenate([np.array(a.states).reshape(-1), np.array(b.states).reshape(-1)])
+    out = []
+    try:
+        small, big = 1e-7, 1e-3
+        f0 = f(0.0)
+        f1 = f(small)
+        f2 = f(big)
+        lin = (small / big) * (f2 - f0)
+        scale = float(np.max(np.abs(lin)))
+        err = float(np.max(np.abs((f1 - f0) - lin)))
+        if scale < 1e-11:
+            return [{"what": "harness", "detail": "no response to %s" % kind}]
+        # the bath's double integrals are quadratures with their own relative tolerance: wider margin for alpha
+        if err > (0.25 if kind == "alpha" else 0.05) * scale + 1e-12:
+            out.append({"what": "nearly-equal-input-conflated", "input": kind, "response": float(np.max(np.abs(f1 - f0))),
+                        "expected_response": scale})
+    except Exception as ex:  # pylint: disable=broad-except
+        import traceback
+        out.append({"what": "exception", "detail": "%s: %s" % (type(ex).__name__, str(ex)[:150]), "tb": traceback.format_exc()[-300:]})
+    return out
+
+
+NEAR_KINDS = ["hamiltonian", "rate", "lindblad-operator", "coupling", "alpha", "initial-state"]
+
+
 def hkey(c):
     return tuple((h["op"], h["arg"]) for h in c["hist"])
 
@@ -421,13 +500,20 @@ def run(ctx):
     # (B) layouts and mutation
     names = sorted(api_calls().keys()) if False else ["Tempo", "compute_dynamics", "compute_correlations", "state_gradient",
                                                       "PtTebd", "MeanFieldTempo", "SimpleProcessTensor", "TwoTimeBathCorrelations"]
-    ljobs = [(n, lay) for n in names for lay in ("F", "strided", "readonly")]
+    ljobs = [(n, lay) for n in names for lay in ("C", "F", "strided", "readonly")]
     for (n, lay), mm in zip(ljobs, core.pmap(layout_job, ljobs)):
         ctx.case({"api": n, "layout": lay}, nontrivial=True)
         for x in mm:
             if x["what"] == "harness":
                 raise core.MachineryError(x["detail"])
             ctx.violation("C20:%s:%s" % (n, x["what"]), "api=%s layout=%s: %s" % (n, lay, x), {"layout": [n, lay]})
+    # (B') inputs nearly equal to inputs used before
+    for kind, mm in zip(NEAR_KINDS, core.pmap(near_job, NEAR_KINDS)):
+        ctx.case({"nearly_equal_input": kind}, nontrivial=True)
+        for x in mm:
+            if x["what"] == "harness":
+                raise core.MachineryError(x["detail"])
+            ctx.violation("C20:near:%s" % x["what"], "%s: %s" % (kind, x), {"near": kind})
     # (C) reuse of shared objects
     kinds = '{"tempo", "pttempo", "dynamics", "correlations", "gradient", "tebd", "bathcorr-early", "bathcorr-late", "bathocc", "pttempo-nomem-short", "tempo-nomem-long"}'
     ru = ctx.tlc("ObjectGraph", CFG_USE, label="sequences of computations re-using shared objects", workers=2,
@@ -437,8 +523,8 @@ def run(ctx):
         for x in mm:
             ctx.violation("C20:reuse:%s" % x["what"], "%s: %s" % ([h["arg"] for h in c["hist"]], x), {"reuse": c})
     ctx.rule = ("(A) every history of ObjectGraph.tla (set / correlation / 2D integral with 2 argument tuples / build bath / "
-                "bath attribute / bath correlation / computation) of exactly MaxOps operations; (B) 8 APIs x {Fortran, strided, "
-                "read-only} arrays; (C) every sequence of computations from the spec re-using shared objects; non-trivial (A) = "
+                "bath attribute / bath correlation / computation) of exactly MaxOps operations; (B) 8 APIs x {C, Fortran, strided, "
+                "read-only} arrays (results re-read after the caller's arrays were overwritten); (C) every sequence of computations from the spec re-using shared objects; non-trivial (A) = "
                 "contains a parameter update")
     ctx.exhaustive = quick is True
     ctx.assumptions += ["answers are mapped to parameter versions through a table computed from freshly built objects (relative 1e-9)"]
@@ -450,6 +536,9 @@ def replay(ctx, rep):
     ctx.case({"replay": True})
     if "layout" in c:
         for x in layout_job(tuple(c["layout"])):
+            ctx.violation("C20:replay:" + x["what"], str(x), c)
+    elif "near" in c:
+        for x in near_job(c["near"]):
             ctx.violation("C20:replay:" + x["what"], str(x), c)
     elif "reuse" in c:
         for x in reuse_job(c["reuse"]):
